@@ -486,7 +486,9 @@ func runC06(c *Case) {
 				fail("drop", "drop failed: "+err.Error())
 				break
 			}
-			if !builtin && r.Bool() {
+			if !builtin && !cacheOn && r.Bool() {
+				// (not with the node cache on: on an emptied table the new value would apply and make a
+				// multi-level tree, which is the known finding D19 under another signature)
 				// entries_per_node only matters for an empty tree: re-opened with another (or no)
 				// value the table behaves the same
 				spec.EPN = []int{0, 4096, 64, 2}[r.Intn(4)]
